@@ -81,6 +81,14 @@ def step (w : List String) : String :=
         String.intercalate "," ((Impl.adjustDefinedNames sheet ⟨d, n, o⟩ nm ds).map hexS)
       else "bad-op"
     | _, _, _, _, _ => "bad-op"
+  | "dvw" :: dir :: num :: off :: sh :: shN :: content :: names :: toks =>
+    match dirOf dir, parseInt? num, parseInt? off, unhexS sh, unhexS shN, unhexS content, parseNames names, parseToks toks with
+    | some d, some n, some o, some sheet, some sheetN, some c, some nm, some ts =>
+      let env : Impl.Env := { sheet := sheet, sheetN := sheetN, kr := false, e := ⟨d, n, o⟩, names := nm, formula := [] }
+      match Impl.adjustDV env c ts with
+      | some v => "ok " ++ hexS v
+      | none => "ERR"
+    | _, _, _, _, _, _, _, _ => "bad-op"
   | "shf" :: dc :: dr :: toks =>
     match parseInt? dc, parseInt? dr, parseToks toks with
     | some dCol, some dRow, some ts => hexS (Impl.parseSharedFormula dCol dRow ts)
